@@ -42,7 +42,7 @@ def plan(tier):
     return {"cases": 8000 if tier == "quick" else 80000, "shards": 16, "case_timeout": 30, "shard_timeout": 3000,
             "min_nontrivial": 100,
             "min_counters": {"instances_compared": 5000, "kind:ref": 300, "kind:alt": 300, "kind:next": 300,
-                             "bindings_interpreted": 5000, "worlds_with_equal_but_distinct_objects": 500}}
+                             "bindings_interpreted": 5000, "worlds_with_equal_but_distinct_objects": 500, "tag_selections": 300}}
 
 
 def setup(ctx):
@@ -168,6 +168,8 @@ def gen(rng, tier, ctx):
     if rng.random() < 0.2 and "world" in case:
         G.with_equal_but_distinct_objects(case["world"])
         case["equal_objects"] = True
+    if rng.random() < 0.12:
+        case["select_tag"] = True
     return case
 
 
@@ -428,7 +430,8 @@ def build_and_run(spec, m, objs):
         raise ValueError(c)
 
     v = inference(m.V)()
-    q = an(entity(v, bc(spec["rule"]["cond"])))
+    # the selection may be an attribute of the inferred variable: the tags of the concluded instances
+    q = an(entity(v.tag if spec.get("select_tag") else v, bc(spec["rule"]["cond"])))
 
     def conclude(r):
         if r.get("concl") == "none":
@@ -548,6 +551,18 @@ def run(spec, ctx):
         recover(ctx)
         return {"status": "fail", "kind": "exception:" + type(e).__name__, "key": classify(feats, None),
                 "detail": f"{type(e).__name__}: {e}"[:300] + " | " + shape_of(spec["rule"])}
+    if spec.get("select_tag"):
+        C["tag_selections"] += 1
+        want = {k[0] for k in exp}
+        odd = [repr(r)[:40] for r in res if not isinstance(r, str)]
+        if set(map(str, res)) == want and not odd:
+            return {"status": "ok", "nontrivial": bool(spec["rule"]["children"]) and len(want) >= 1,
+                    "shape": "tag|" + shape_of(spec["rule"]) + "|" + str(len(names)), "obs": {"tags": len(res)}}
+        key = classify(feats, (bool(set(map(str, res)) - want), bool(want - set(map(str, res)))))
+        C["fail:" + (key or "UNEXPLAINED")] += 1
+        return {"status": "fail", "kind": "tag-selection", "key": key,
+                "detail": f"entity(v.tag, ...) gives tags {sorted(set(map(str, res)))[:6]} (non-strings {odd[:2]}), the instances the tree "
+                          f"concludes have tags {sorted(want)[:6]} | tree={shape_of(spec['rule'])}"}
     got = set()
     bad_inst = []
     for r in res:
@@ -637,4 +652,8 @@ def witnesses():
         "id": "r0", "cond": ["cmp", "==", ["attr", ["var", "x"], "a"], ["lit", 1]], "children": [
             ["ref", {"id": "r1", "cond": ["cmp", "==", ["attr", ["var", "x"], "b"], ["lit", 1]], "children": []}],
             ["alt", {"id": "r2", "cond": c_items(1), "children": []}]]}}
+    # the selection is an attribute of the inferred variable and a refinement concludes nothing
+    w["selected-attribute-of-an-instance-nobody-concluded"] = {"world": world, "vars": X, "select_tag": True, "rule": {
+        "id": "r0", "cond": base, "children": [
+            ["ref", {"id": "r1", "cond": ["cmp", "==", ["attr", ["var", "x"], "a"], ["lit", 1]], "children": [], "concl": "none"}]]}}
     return w
